@@ -463,6 +463,22 @@ fn string_atoms_leg(g: &Grammar) -> Acc {
             RV::Str(s) => s.clone(),
             _ => continue,
         };
+        // ... and in the `@description` position the description (also read back through the metadata)
+        let dtext = format!("// n\n@description: {l};\nx");
+        let dgot = crate::engine::panic::catch(|| {
+            reval::prelude::Rule::parse(&dtext)
+                .map(|r| (r.description().map(|d| d.to_string()), r.get_metadata("description").cloned()))
+                .map_err(|e| e.to_string())
+        });
+        let dok = matches!(&dgot, Ok(Ok((Some(d), Some(reval::prelude::Value::String(m))))) if *d == want && *m == want);
+        if !dok {
+            acc.violation(Violation {
+                sig: "description-literal/different".into(),
+                what: format!("Rule::parse({dtext:?}): the description literal denotes {want:?}, got {dgot:?}"),
+                case: json!({"kind": "name-literal", "text": dtext, "want": want}),
+                size: dtext.len(),
+            });
+        }
         let got = crate::engine::panic::catch(|| reval::prelude::Rule::parse(&text).map(|r| r.name().to_string()).map_err(|e| e.to_string()));
         let ok = matches!(&got, Ok(Ok(n)) if *n == want);
         if !ok {
